@@ -12,7 +12,7 @@ source (number automaton, escape set, boolean spellings, precision table).
                   valid_accepted, never_stores_other_value_full (FALSE) / _partial
   batches         batch_rows, batch_invalid_rejected_full (FALSE) / _partial, timestamp_exact
 -/
-import OG.C06.Lemmas
+import OG.C06.NoEsc
 
 namespace OG.C06
 open OG.Gen.C06
@@ -194,6 +194,79 @@ example : IntSafe [49, 50, 105] := by     -- "12i"
   intro n h
   have : specNum [49, 50, 105] = some (.int 12) := by decide
   rw [this] at h; injection h with h; injection h with h; subst h; decide
+
+/-! ## whole lines -/
+
+/-- **T12** the delimiter after an escaped measurement / key / tag value is found exactly
+there, however many commas, blanks, equals signs and backslashes the token holds (the three
+delimiters are members of the regenerated escape set). -/
+theorem delimiter_found (t rest : Bytes) :
+    nextUnesc false bComma (escapeTag t ++ bComma :: rest) = some (escapeTag t).length ∧
+    nextUnesc false bSpace (escapeTag t ++ bSpace :: rest) = some (escapeTag t).length ∧
+    nextUnesc false bEq (escapeTag t ++ bEq :: rest) = some (escapeTag t).length :=
+  ⟨nextUnesc_escapeTag bComma comma_in_set (by decide) t rest,
+   nextUnesc_escapeTag bSpace space_in_set (by decide) t rest,
+   nextUnesc_escapeTag bEq eq_in_set (by decide) t rest⟩
+
+/-- **T13** a tag is read back as the key and the value it was printed from. -/
+theorem tag_pair_roundtrip (t : Tag) (h : TagOk t) : parseTag false (showTag t) = .ok t :=
+  parseTag_roundtrip t h
+
+/-- **line round trip**: the canonical line of every well-formed point (any bytes in the
+measurement, tag keys and values, field keys — commas, blanks, equals signs, backslashes,
+quotes in tags, non-UTF-8 — any number of tags and non-string fields, optional timestamp)
+parses to exactly that point. -/
+theorem line_roundtrip (p : NPoint) (h : p.Ok) : parseRow false (showLine p) = .ok p.row := by
+  obtain ⟨hn0, hnl, h9, h0, htags, hf0, hfs, hts'⟩ := h
+  have hts : ∀ t, p.ts = some t → (t : Int) ≤ maxInt64 := by
+    intro t ht; rw [ht] at hts'; exact hts'
+  unfold parseRow showLine
+  generalize hH : escapeTag p.name ++ (if p.tags = [] then [] else bComma :: showTagsTail p.tags) = H
+  generalize hT : showFields (p.fields.map NField.text) ++ showTs p.ts = T
+  -- leading white space
+  have e1 : skipLeadingWs (H ++ bSpace :: T) = H ++ bSpace :: T := by
+    rw [← hH, List.append_assoc]
+    obtain ⟨c, cs, hc, c1, c2, c3⟩ := escapeTag_head p.name
+      ((if p.tags = [] then [] else bComma :: showTagsTail p.tags) ++ bSpace :: T) hn0 h9 h0
+    rw [hc]; exact skipLeadingWs_of_head c1 c2 c3
+  simp only [e1]
+  have e2 : nextUnesc false bSpace (H ++ bSpace :: T) = some H.length := by
+    rw [← hH]; exact nextUnesc_found (clean_head_space p) T
+  rw [e2]
+  simp only [take_append_len, drop_append_len1]
+  rw [← hH, head_section p htags]
+  simp only [unescapeTag, Bool.false_eq_true, if_false, unescGo_escapeTag]
+  have e3 : ¬ p.name.length > maxMeasurementLength := by omega
+  rw [if_neg e3]
+  have e4 : stripSpaces T = T := by
+    rw [← hT]
+    obtain ⟨c, cs, hc, hne⟩ := showFields_head p.fields hf0 hfs (showTs p.ts)
+    rw [hc]; exact stripSpaces_of_head hne
+  rw [e4, ← hT, tail_section p hf0 hfs hts]
+  rfl
+
+
+/-- **T15** the fast path is sound: for a line without backslash `Row.unmarshal` with
+`noEscapeChars = true` computes what the general path computes (all byte strings). -/
+theorem fast_path_sound (s : Bytes) (h : ∀ c ∈ s, c ≠ bBslash) : parseRow true s = parseRow false s :=
+  parseRow_noBs s h
+
+/-- so the round trip holds on whichever path the parser takes. -/
+theorem line_roundtrip_any_path (p : NPoint) (h : p.Ok) (noEsc : Bool)
+    (hn : noEsc = true → ∀ c ∈ showLine p, c ≠ bBslash) : parseRow noEsc (showLine p) = .ok p.row := by
+  cases noEsc with
+  | false => exact line_roundtrip p h
+  | true => rw [fast_path_sound _ (hn rfl)]; exact line_roundtrip p h
+
+/-- non-vacuity: `a\,b\ c,k\==v\,w x\ y=-12i,z=1.5e3 1600000000` -/
+def examplePoint : NPoint :=
+  { name := [97, 44, 98, 32, 99], tags := [⟨[107, 61], [118, 44, 119]⟩],
+    fields := [⟨[120, 32, 121], [45, 49, 50, 105], .int (-12)⟩, ⟨[122], [116], .bool true⟩], ts := some 1600000000 }
+
+example : examplePoint.Ok := by decide
+
+example : (parseRow false (showLine examplePoint)).toOption = some examplePoint.row := by
+  rw [line_roundtrip examplePoint (by decide)]; rfl
 
 /-! ## batches -/
 
